@@ -163,7 +163,7 @@ def base_field_src(fam, f, variant):
         return "Ref(%s)" % cls
     if t == "sel":
         opts = []
-        for k, o in sorted(f["options"].items(), key=lambda kv: int(kv[0])):
+        for k, o in f["options"].items():       # in the (random) order of the spec: not necessarily ascending
             if o["t"] == "ref":
                 osrc = "%s_%s()" % (o["decl"], variant)
             else:
